@@ -160,6 +160,7 @@ class _Desugar(ast.NodeTransformer):
 
     * ``for i in np.flatnonzero(M): body``  ->  ``for i in range(len(M)): if not M[i]: continue; body``
       (same iterations in the same order for a 1-d mask M; the loop then has the whole-axis shape every loop rule knows)
+    * ``for i, j in np.ndindex(A, B): body``  ->  ``for i in range(A): for j in range(B): body``
     * ``for i, x in enumerate(X): body``  ->  ``for i in range(len(X)): x = X[i]; body``
     * ``i = 0; while i < N: i += 1; body``  ->  ``for i in range(1, N + 1): body``  (see _counting_while)"""
 
@@ -213,6 +214,25 @@ class _Desugar(ast.NodeTransformer):
     def visit_For(self, node: ast.For):
         self.generic_visit(node)
         it = node.iter
+        # for i, j in np.ndindex(A, B): body  ->  for i in range(A): for j in range(B): body      (row-major, the same order)
+        if isinstance(it, ast.Call) and isinstance(it.func, ast.Attribute) and it.func.attr == "ndindex" and isinstance(it.func.value, ast.Name) \
+                and it.func.value.id in ("np", "numpy") and not it.keywords and isinstance(node.target, ast.Tuple) and not node.orelse \
+                and all(isinstance(e, ast.Name) for e in node.target.elts):
+            extents = list(it.args[0].elts) if len(it.args) == 1 and isinstance(it.args[0], (ast.Tuple, ast.List)) else list(it.args)
+            if len(extents) == len(node.target.elts) and len(extents) >= 1:
+                body = node.body
+                depth_ = len(extents)
+                for tgt, ext in reversed(list(zip(node.target.elts, extents))):
+                    depth_ -= 1
+                    rng = ast.Call(func=ast.Name(id="range", ctx=ast.Load()), args=[ext], keywords=[])
+                    loop = ast.For(target=ast.Name(id=tgt.id, ctx=ast.Store()), iter=rng, body=body, orelse=[], type_comment=None)
+                    ast.copy_location(loop, node)
+                    loop._osuverif_depth = depth_      # loops made from one statement share its line: tell their state symbols apart
+                    ast.copy_location(rng, it)
+                    for sub in (rng.func, loop.target):
+                        ast.copy_location(sub, it)
+                    body = [loop]
+                return body[0]
         if isinstance(it, ast.Name) and it.id in getattr(self, "_index_locals", {}):
             import copy as _copy
             it = ast.copy_location(_copy.deepcopy(self._index_locals[it.id]), it)
